@@ -23,6 +23,11 @@ from .models import normpath
 COMMUTATIVE = {"Add", "Mul", "BitAnd", "BitOr", "BitXor", "Eq", "Ne"}
 
 
+def _is_store(lhs):
+    """assignment through a reference / pointer held in the local: a memory store, not a definition of the local"""
+    return bool(lhs["proj"]) and lhs["proj"][0]["p"] == "deref"
+
+
 class TermBuilder:
     def __init__(self, fn, crate=None, widening_transparent=True, keep_casts=False):
         self.fn = fn
@@ -50,7 +55,7 @@ class TermBuilder:
                 if b["cleanup"] or b["i"] not in self.cfg.reach:
                     continue
                 for i, s in enumerate(b["stmts"]):
-                    if s["s"] == "assign":
+                    if s["s"] == "assign" and not _is_store(s["lhs"]):
                         d.setdefault(s["lhs"]["l"], []).append((b["i"], i, not s["lhs"]["proj"]))
                 t = b["term"]
                 if t["t"] == "call":
@@ -69,7 +74,7 @@ class TermBuilder:
                 return (blk, "T", not t["dest"]["proj"])
         for i in range(hi - 1, -1, -1):
             s = stmts[i]
-            if s["s"] == "assign" and s["lhs"]["l"] == local:
+            if s["s"] == "assign" and s["lhs"]["l"] == local and not _is_store(s["lhs"]):
                 return (blk, i, not s["lhs"]["proj"])
         return None
 
@@ -249,6 +254,9 @@ class TermBuilder:
                 return self.mk_cast(dty, args[0], aty)
         if g in ("std::ops::Deref::deref", "std::ops::DerefMut::deref_mut"):
             return ("deref*", args[0])
+        if g == "std::iter::Iterator::next":
+            # one `next` call site = one loop: keep sites apart even when their sources are equal terms
+            return ("call", g, args + (("at", blk),))
         return ("call", c if (t.get("resolved_local") or not t.get("trait")) else g, args)
 
     def mk_cast(self, to, a, frm=None):
@@ -332,6 +340,12 @@ class TermBuilder:
             terms = [terms[1], terms[0]]
         if b1 == b2:
             return None
+        if useblk is not None:
+            # a definition that reaches the use around a back edge is loop-carried, not a branch alternative
+            fwd = cfg.reachable_from(useblk)
+            for bd in (b1, b2):
+                if bd in fwd and not cfg.dominates(bd, useblk):
+                    return None
 
         def sides(d):
             bc = self.branch_cond(d)
@@ -433,6 +447,7 @@ class TermBuilder:
 
 
 def fmt(t, depth=0):
+    _F = globals()["fmt"]
     """compact human-readable rendering"""
     k = t[0]
     if k == "param":
@@ -446,34 +461,34 @@ def fmt(t, depth=0):
     if k == "op":
         sym = {"Add": "+", "Sub": "-", "Mul": "*", "Div": "/", "Rem": "%", "BitXor": "^", "BitAnd": "&", "BitOr": "|",
                "Shl": "<<", "Shr": ">>", "Lt": "<", "Le": "<=", "Gt": ">", "Ge": ">=", "Eq": "==", "Ne": "!="}.get(t[1], t[1])
-        return "(%s %s %s)" % (fmt(t[2]), sym, fmt(t[3]))
+        return "(%s %s %s)" % (_F(t[2]), sym, _F(t[3]))
     if k == "un":
-        return "%s(%s)" % (t[1], fmt(t[2]))
+        return "%s(%s)" % (t[1], _F(t[2]))
     if k == "cast":
-        return "(%s as %s)" % (fmt(t[2]), t[1])
+        return "(%s as %s)" % (_F(t[2]), t[1])
     if k == "field":
-        return "%s.%d" % (fmt(t[1]), t[2])
+        return "%s.%d" % (_F(t[1]), t[2])
     if k == "deref":
-        return "*%s" % fmt(t[1])
+        return "*%s" % _F(t[1])
     if k == "deref*":
-        return "*%s" % fmt(t[1])
+        return "*%s" % _F(t[1])
     if k == "index":
-        return "%s[%s]" % (fmt(t[1]), fmt(t[2]))
+        return "%s[%s]" % (_F(t[1]), _F(t[2]))
     if k == "variant":
-        return "(%s as %s)" % (fmt(t[1]), t[2])
+        return "(%s as %s)" % (_F(t[1]), t[2])
     if k == "ref":
-        return "&%s" % fmt(t[1])
+        return "&%s" % _F(t[1])
     if k == "len":
-        return "len(%s)" % fmt(t[1])
+        return "len(%s)" % _F(t[1])
     if k == "agg":
-        return "%s(%s)" % (t[1].split("::")[-1] if ":" in t[1] else t[1], ", ".join(fmt(x) for x in t[2]))
+        return "%s(%s)" % (t[1].split("::")[-1] if ":" in t[1] else t[1], ", ".join(_F(x) for x in t[2]))
     if k == "call":
         c = t[1] if isinstance(t[1], str) else "indirect"
-        return "%s(%s)" % (c.split("::")[-1] if isinstance(c, str) else c, ", ".join(fmt(x) for x in t[2]))
+        return "%s(%s)" % (c.split("::")[-1] if isinstance(c, str) else c, ", ".join(_F(x) for x in t[2]))
     if k == "ite":
-        return "(%s ? %s : %s)" % (fmt(t[1]), fmt(t[2]), fmt(t[3]))
+        return "(%s ? %s : %s)" % (_F(t[1]), _F(t[2]), _F(t[3]))
     if k == "phi":
-        return "phi(%s)" % ", ".join(fmt(x) for x in t[1])
+        return "phi(%s)" % ", ".join(_F(x) for x in t[1])
     if k == "mu":
         return "mu(_%d@bb%d)" % (t[1], t[2])
     return str(t)
@@ -674,6 +689,8 @@ def map_term(t, f):
     if not isinstance(t, tuple):
         return t
     t2 = tuple(map_term(x, f) if isinstance(x, tuple) else x for x in t)
+    if not t2 or not isinstance(t2[0], str):
+        return t2          # plain argument list, not a term node
     return f(t2)
 
 
